@@ -18841,6 +18841,21 @@ func (p *parser) toAST(before, parts, after []js_ast.Part, hashbang string, dire
 			}
 		}
 
+		// A symbol that was merged into another one (e.g. a "var" that is declared
+		// again in a nested scope and hoisted) is still used under its own ref by
+		// the code in that nested scope. Look those up under the merged symbol.
+		for i := range p.symbols {
+			if p.symbols[i].Link != ast.InvalidRef {
+				ref := p.symbols[i].Link
+				for p.symbols[ref.InnerIndex].Link != ast.InvalidRef {
+					ref = p.symbols[ref.InnerIndex].Link
+				}
+				if parts, ok := p.topLevelSymbolToParts[ref]; ok {
+					p.topLevelSymbolToParts[ast.Ref{SourceIndex: p.source.Index, InnerIndex: uint32(i)}] = parts
+				}
+			}
+		}
+
 		// Pulling in the exports of this module always pulls in the export part
 		p.topLevelSymbolToParts[p.exportsRef] = append(p.topLevelSymbolToParts[p.exportsRef], js_ast.NSExportPartIndex)
 	}
